@@ -10,6 +10,7 @@ import (
 	"os"
 	"runtime"
 	"runtime/debug"
+	"runtime/pprof"
 	"strconv"
 	"strings"
 	"sync/atomic"
@@ -106,6 +107,7 @@ type srv struct {
 	unary  grpc.UnaryServerInterceptor
 	stream grpc.StreamServerInterceptor
 	std    *env // shared store for read-only RPCs
+	modelChecked bool
 }
 
 var lastPanic atomic.Pointer[panicRec]
@@ -303,20 +305,35 @@ func (w *worker) srv(cfg string) *srv {
 var bg = context.Background()
 
 // freshStore creates a store holding the baseline model; with tuples when withData.
-func (w *worker) freshStore(sv *srv, withData bool) env {
+func (w *worker) freshStore(sv *srv, withData bool, withAssertions ...bool) env {
 	cs, err := sv.s.CreateStore(bg, &openfgav1.CreateStoreRequest{Name: "c19-store"})
 	if err != nil {
 		fatal("CreateStore: %v", err)
 	}
 	m := baseModel()
-	wm, err := sv.s.WriteAuthorizationModel(bg, &openfgav1.WriteAuthorizationModelRequest{StoreId: cs.GetId(), TypeDefinitions: m.GetTypeDefinitions(),
-		SchemaVersion: m.GetSchemaVersion(), Conditions: m.GetConditions()})
-	if err != nil {
-		fatal("baseline model rejected: %v", err)
+	var e env
+	if !sv.modelChecked {
+		// once per server the baseline model goes through WriteAuthorizationModel (it must be valid) ...
+		wm, err := sv.s.WriteAuthorizationModel(bg, &openfgav1.WriteAuthorizationModelRequest{StoreId: cs.GetId(), TypeDefinitions: m.GetTypeDefinitions(),
+			SchemaVersion: m.GetSchemaVersion(), Conditions: m.GetConditions()})
+		if err != nil {
+			fatal("baseline model rejected: %v", err)
+		}
+		sv.modelChecked = true
+		e = env{StoreID: cs.GetId(), ModelID: wm.GetAuthorizationModelId()}
+	} else {
+		// ... afterwards the same model is stored under a fresh id (the server validates it again when it loads it)
+		m.Id = ulid.Make().String()
+		if err := sv.ds.WriteAuthorizationModel(bg, cs.GetId(), m); err != nil {
+			fatal("baseline model refused by the datastore: %v", err)
+		}
+		e = env{StoreID: cs.GetId(), ModelID: m.GetId()}
 	}
-	e := env{StoreID: cs.GetId(), ModelID: wm.GetAuthorizationModelId()}
 	if withData {
 		w.writeAPI(sv, e, baseTuples())
+		if len(withAssertions) == 0 {
+			return e
+		}
 		if _, err := sv.s.WriteAssertions(bg, baselines["WriteAssertions"](e).(*openfgav1.WriteAssertionsRequest)); err != nil {
 			fatal("baseline assertions rejected: %v", err)
 		}
@@ -338,14 +355,22 @@ func (w *worker) writeAPI(sv *srv, e env, ts []*openfgav1.TupleKey) {
 // UpdateStore is not implemented by this server: its valid baseline is answered Unimplemented.
 var baselineNotOK = map[string]string{"UpdateStore": "Unimplemented"}
 
+func (w *worker) emptyStore(sv *srv) env {
+	cs, err := sv.s.CreateStore(bg, &openfgav1.CreateStoreRequest{Name: "c19-store"})
+	if err != nil {
+		fatal("CreateStore: %v", err)
+	}
+	return env{StoreID: cs.GetId()}
+}
+
 var mutating = map[string]bool{"Write": true, "WriteAuthorizationModel": true, "WriteAssertions": true, "CreateStore": true, "UpdateStore": true, "DeleteStore": true}
 
 func (w *worker) stdStore(sv *srv, rpc string) env {
 	if mutating[rpc] {
-		return w.freshStore(sv, true)
+		return w.freshStore(sv, true, true)
 	}
 	if sv.std == nil {
-		e := w.freshStore(sv, true)
+		e := w.freshStore(sv, true, true)
 		sv.std = &e
 	}
 	return *sv.std
@@ -436,8 +461,13 @@ func (w *worker) run(c Case) (res Result) {
 	sv := w.srv(c.Cfg)
 	switch c.Kind {
 	case "baseline", "mut":
-		e := w.stdStore(sv, c.RPC)
-		req := baselines[c.RPC](e)
+		var e env
+		if c.RPC == "WriteAuthorizationModel" {
+			e = w.emptyStore(sv) // the request only needs an existing store
+		} else {
+			e = w.stdStore(sv, c.RPC)
+		}
+		req := baselineOf(c, e)
 		for _, mu := range c.Muts {
 			if err := Apply(req, mu); err != nil {
 				res.Flags += "N"
@@ -473,7 +503,18 @@ func (w *worker) run(c Case) (res Result) {
 		e := w.freshStore(sv, false)
 		hm := buildModel(c.Scn, c.Arg)
 		id := ulid.Make().String()
-		err := sv.ds.WriteAuthorizationModel(bg, e.StoreID, &openfgav1.AuthorizationModel{Id: id, SchemaVersion: "1.1", TypeDefinitions: hm.TDs, Conditions: hm.Conds})
+		am := &openfgav1.AuthorizationModel{Id: id, SchemaVersion: "1.1", TypeDefinitions: hm.TDs, Conditions: hm.Conds}
+		// a model can only pre-exist if it survives the serialisation every persistent datastore applies to it
+		if wire, err := proto.Marshal(am); err != nil {
+			res.Flags += "N"
+			res.Note = "model cannot be serialised: " + trunc(err.Error(), 120)
+			return
+		} else if err := proto.Unmarshal(wire, &openfgav1.AuthorizationModel{}); err != nil {
+			res.Flags += "N"
+			res.Note = "model cannot be read back: " + trunc(err.Error(), 120)
+			return
+		}
+		err := sv.ds.WriteAuthorizationModel(bg, e.StoreID, am)
 		if err != nil {
 			res.Flags += "N"
 			res.Note = "datastore refused the model: " + trunc(err.Error(), 120)
@@ -498,7 +539,9 @@ func (w *worker) run(c Case) (res Result) {
 	case "cyclic":
 		e := w.freshStore(sv, true)
 		stored, ctxual := cyclicData(c.Scn, c.Arg)
-		if cyclicDirect[c.Scn] {
+		if cyclicDirect[c.Scn] || (len(stored) > 200 && !(c.Cfg == "" && c.RPC == "Check")) {
+			// large data sets are admitted through Write once per scenario (Check, default configuration); elsewhere the
+			// same valid tuples are loaded through the datastore to keep the set-up cheap
 			w.storeDirect(sv, e, stored)
 		} else {
 			w.writeAPI(sv, e, stored)
@@ -608,6 +651,13 @@ func cpuMs() int64 {
 }
 
 func workerMain() int {
+	if pf := os.Getenv("VERIF_C19_PROFILE"); pf != "" { // development aid
+		f, err := os.Create(pf)
+		if err == nil {
+			_ = pprof.StartCPUProfile(f)
+			defer pprof.StopCPUProfile()
+		}
+	}
 	out := os.NewFile(3, "c19-proto")
 	if out == nil {
 		fatal("fd 3 missing")
@@ -624,6 +674,7 @@ func workerMain() int {
 			if e := json.Unmarshal(line, &b); e != nil {
 				fatal("bad batch: %v", e)
 			}
+			early := false
 			for i, c := range b.Cases {
 				fmt.Fprintf(out, "S %d\n", i)
 				cpu0 := cpuMs()
@@ -631,11 +682,18 @@ func workerMain() int {
 				res.CPUMs = cpuMs() - cpu0
 				rb, _ := json.Marshal(res)
 				fmt.Fprintf(out, "D %d %s\n", i, rb)
+				if i+1 < len(b.Cases) && procStatusKB("VmRSS") > 1200*1024 {
+					debug.FreeOSMemory()
+					if procStatusKB("VmRSS") > 1000*1024 {
+						early = true // state accumulated from earlier cases (stores, caches): hand the rest of the batch back
+						break
+					}
+				}
 			}
 			if b.LingerMs > 0 {
 				time.Sleep(time.Duration(b.LingerMs) * time.Millisecond)
 			}
-			be := batchEnd{HWMKB: procStatusKB("VmHWM"), RSSKB: procStatusKB("VmRSS"), Goroutines: runtime.NumGoroutine()}
+			be := batchEnd{HWMKB: procStatusKB("VmHWM"), RSSKB: procStatusKB("VmRSS"), Goroutines: runtime.NumGoroutine(), Recycle: early}
 			if be.RSSKB > 1500*1024 {
 				debug.FreeOSMemory()
 				if procStatusKB("VmRSS") > 1200*1024 {
